@@ -53,6 +53,12 @@ def run(prop, tier, seed, work):
             sid = "C15-mix-%s*%d+%s" % (pfx, pre, pat)
             scen.append({"sid": sid, "prop": prop, "vals": [], "tags": ["mix"], "dkey": sid,
                          "steps": [{"op": "deep", "ty": "Re", "prefix": pfx, "pre": pre, "pattern": pat, "depths": mdepths, "bisect": True}]})
+    # deep known nesting with a shallow unknown container at the bottom, all inside the 48 levels that are always accepted
+    for (pfx, pat) in (("struct", "ulist"), ("struct", "ustruct"), ("struct", "umap"), ("list", "ulist"), ("mapval", "ustruct")):
+        for pre in (10, 15, 20, 22):
+            sid = "C15-bottom-%s*%d+%s" % (pfx, pre, pat)
+            scen.append({"sid": sid, "prop": prop, "vals": [], "tags": ["unknown-at-the-bottom"], "dkey": sid,
+                         "steps": [{"op": "deep", "ty": "Re", "prefix": pfx, "pre": pre, "pattern": pat, "depths": [1, 2, 3], "bisect": False}]})
     # shallow but wide: 3 levels, many entries - always accepted whatever the size
     wides = [1, 100, 1000, 1021, 1022, 1023, 1024, 1100, 2047, 2048, 5000, 70000]
     for ty, pat in (("Re", "widelist"), ("Re", "widemap"), ("Re", "wideulist"), ("ReU", "wideulist")):
